@@ -65,7 +65,7 @@ CHECKS = {
                      "a history ends silently when success differs between subject and os (that is C01/C06/C07's subject)"],
         legs=[dict(name=k, run="^Test%s$" % n, quick=q, thorough=q * 20, shards=4) for (k, n, q) in [
             ("mem", "Mem", 250), ("minimal", "Minimal", 150), ("kvplain", "KVPlain", 150), ("osfs", "OSFS", 120), ("ossub2", "OSSub2", 80), ("ossub3", "OSSub3", 80),
-            ("mount0", "Mount0", 100), ("mount1", "Mount1", 200), ("mount2", "Mount2", 200), ("submem", "SubMem", 150), ("subsub", "SubSub", 100), ("submountpt", "SubMountPt", 100), ("cache", "CacheLayer", 200), ("tar", "TarLayer", 150)]],
+            ("mount0", "Mount0", 100), ("mount1", "Mount1", 200), ("mount2", "Mount2", 200), ("mountstack", "MountStack", 150), ("submem", "SubMem", 150), ("subsub", "SubSub", 100), ("submountpt", "SubMountPt", 100), ("cache", "CacheLayer", 200), ("tar", "TarLayer", 150)]],
     ),
     "C04": dict(
         pkg="c04", level="exploration",
